@@ -101,13 +101,14 @@ _ATTR_K = ['k08_priority', 'k08_priority_new', 'k08_use_candidate', 'k08_ice_con
 PROPS['C19'] = {
     'level': 'proof',
     'vx': [{'unit': 'parse', 'functions': ['MessageType :: from_bytes', 'get_type', 'transaction_id', 'MessageHeader :: from_bytes', 'From<u128>']},
-           {'unit': 'builder', 'functions': ['MessageType :: write_into', "MessageBuilder<'a> :: write_into"]}],
+           {'unit': 'builder', 'functions': ['MessageType :: write_into', "MessageBuilder<'a> :: write_into", 'from_class_method', 'MessageType :: class', 'MessageType :: method', 'MessageType :: has_class', 'to_bits', 'lemma_type_roundtrip', 'lemma_method_idem']}],
     'kx': ['k19_class_method', 'k19_from_bytes_all', 'k19_tid_mask', 'k17_header_from_bytes', 'k_shim_u128', 'k03_build_small'],
     'bx': ['c19'],
     'rule': 'Kani complete harnesses (loop-free / fixed trip count over full-domain symbolic inputs) + Verus VCs of unit parse.',
     'proved': ['all 4x4096 (class, method): type field == RFC 8489 s5 interleaving written bit by bit; class()/method() invert it; wire form round-trips',
                'all 65536 field values (and slice lengths 0..4): refused NotStun <=> top two bits set; every other value decodes to a unique (class, method)',
                'TransactionId::from(x) == x mod 2^96 for all u128; header decoder reads the id from bytes 8..20; Message::transaction_id reads bytes 8..20 (Verus)',
+               '(Verus, unit builder) MessageType::from_class_method == class bits | method bits of RFC 8489 s5, class()/method() read them back (lemma_type_roundtrip: class_of(from(c, m)) == c, method_of(from(c, m)) == m & 0xfff, top two bits zero) - the same facts Kani checks exhaustively',
                '(Verus, unit builder) MessageBuilder::write_into places the type field in bytes 0..2, the magic cookie in 4..8 and the low 96 bits of the transaction id big-endian in 8..20 ([C19.header]); MessageType::write_into'],
     'bounded': ['build() (= write_into into a fresh vector; iterator sum): BX', 'generated ids fit in 96 bits: BX sampling (rand is outside every contract; follows from the mask)'],
     'trusted': _PARSE_TRUST + _KX_TRUST,
@@ -125,12 +126,17 @@ PROPS['C13'] = {
 }
 PROPS['C16'] = {
     'level': 'exploration',
+    'vx': [{'unit': 'builder', 'functions': ['unknown_attributes', 'bad_request', 'builder_error', 'builder_success', ":: builder", ':: class', ':: method', ':: has_class', 'from_class_method', 'to_bits',
+                                             'lemma_type_roundtrip', 'lemma_method_idem', 'lemma_literals', 'ErrorCode :: new', 'UnknownAttributes :: new', 'add_attribute', "MessageBuilder<'a> :: into_owned", 'get_type', 'transaction_id']}],
     'kx': ['k16_comprehension_required'],
     'bx': ['c16'],
-    'rule': 'Kani complete harness for the classification; BX enumeration for check_attribute_types (iterator adaptors + MessageBuilder are outside both verifiers).',
-    'proved': ['comprehension_required(t) <=> t < 0x8000 for all 65536 types (Kani, complete)'],
-    'bounded': ['check_attribute_types verdict / response contents vs RFC 8489 s6.3.1 oracle: BX (bounded)'],
-    'trusted': _KX_TRUST,
+    'rule': 'Kani complete harness for the classification; Verus for the response constructors; BX enumeration for the verdict of check_attribute_types (iterator adaptors).',
+    'proved': ['comprehension_required(t) <=> t < 0x8000 for all 65536 types (Kani, complete)',
+               '(Verus, unit builder) response construction: for a request src, Message::bad_request(src) / unknown_attributes(src, types) return a builder with class error, the method and the transaction id of src (type field without the top bits), whose attributes are exactly SOFTWARE "stun-types", ERROR-CODE 400 "Bad Request" resp. 420 "Unknown Attributes" (value: 00 00 class number + text) and - unless the list is empty - UNKNOWN-ATTRIBUTES listing exactly the given types in the given order; builder_error / builder_success / builder; the panic! of builder_error/builder_success is unreachable for requests (documented precondition; D8 is the known finding where check_attribute_types violates it)',
+               '(Verus) MessageType::{from_class_method, class, method, has_class} against the RFC 8489 s5 bit layout, with the round-trip lemma; Message::{class, method, has_class, get_type, transaction_id}'],
+    'bounded': ['the verdict of check_attribute_types (which of 420 / 400 / nothing, and which types are listed: iterator map/filter/any over the exposed attributes): BX against an RFC 8489 s6.3.1 oracle; that the response parses back: BX (and, at spec level, unit layout for any list of non-sealing attributes)',
+                'Software::new (str::len has no usable vstd specification): assumed in VX, BX'],
+    'trusted': _KX_TRUST + ['mirror impls of AttributeWrite for Software / ErrorCode / UnknownAttributes in unit builder (value functions as proved in units writers / attrs)', 'smallvec::smallvec![] stand-in (empty list)'],
 }
 PROPS['C08'] = {
     'level': 'exploration',
@@ -307,7 +313,7 @@ LEVEL_TEXT = {
  'C13': "Proof: complete Kani harnesses over all IPv4/IPv6 addresses x ports x transaction ids (fixed trip-count loops unwound with assertions): round trip, RFC wire bytes, other transaction id.",
  'C14': "Proof: push_data/pull_data/take verified against the abstract pull step; the stream-level statement (any frame list, any chunking, any interleaving) is theorem_history, an induction over those contracts (unique decoding of the length-prefixed stream).",
  'C15': "Proof: whole-set postconditions on validated_peers for every operation in Verus and theorem_peers (monotone; validated exactly by an Incoming/Deliver event from that address). StunAgent::poll never names the set (bounded confirmation).",
- 'C16': "Exploration: comprehension_required is proved for all 65536 types (Kani); check_attribute_types / unknown_attributes / bad_request (iterator adaptors + MessageBuilder) are bounded against an RFC 8489 s6.3.1 oracle.",
+ 'C16': "Exploration: comprehension_required is proved for all 65536 types (Kani) and the response constructors (bad_request, unknown_attributes, builder_error: class error, the request's method and id, SOFTWARE + ERROR-CODE 400/420 + the listed types) are proved by Verus; the verdict itself - which response check_attribute_types chooses and which types it lists - is computed with iterator adaptors (map/filter/any) outside the verifier and is decided by bounded enumeration against an RFC 8489 s6.3.1 oracle - hence exploration.",
  'C17': "Proof: the [C17.short]/[C17.exact] clauses of from_bytes, the header decoder's contract and lemma_prefix_truncated give the statement for every well-formed message and every cut point, no bound.",
  'C18': "Exploration: bytes captured once (new), SendData carries them with the same 5-tuple (request poll), send returns the unmodified serialisation, peer_address - all Verus; forwarding through StunAgent::poll is bounded.",
  'C19': "Proof: complete Kani harnesses over all 4x4096 (class, method) pairs, all 65536 field values and all u128 ids; Verus for Message::{get_type,transaction_id} and the header decoder. Header writer placement (builder) and generated ids are bounded.",
